@@ -53,11 +53,12 @@ def run_plan(eng, plan, prop):
         if pp_frames and not isinstance(e, MemoryError):
             f = pp_frames[-1]
             out.status, out.oracle = VIOLATION, prop + ".raises"
-            out.key = "escaped:%s:%s" % (type(e).__name__, f.name)
+            # where a RecursionError surfaces depends on the stack depth of the process, not on the plan
+            out.key = "escaped:%s:%s" % (type(e).__name__, "" if isinstance(e, RecursionError) else f.name)
             out.detail = "%s: %s  (raised under %s:%d %s, called from %s)" % (
                 type(e).__name__, str(e)[:300], os.path.relpath(f.filename, env.REPO), f.lineno, f.name,
                 "%s:%d" % (os.path.basename(tb[last_h].filename), tb[last_h].lineno) if last_h >= 0 else "?")
-            tr.ev("violation", out.oracle, out.key)
+            tr.ev("violation", out.oracle, type(e).__name__)
         else:
             out.status, out.oracle = HARNESS, "harness"
             out.detail = traceback.format_exc()[-3000:]
